@@ -400,17 +400,17 @@ fn ecmp_case(sa: u8, sb: u8) -> bool {
 
 //@ id=C02 tier=quick cap=900
 //@ fn: NlriChange::ecmp_paths, PathAttribute::attr_*, has_llgr_stale_community
-//@ bound: current_paths = [best, second], both without attributes (defaults), sources symbolic (role, router id, GR-stale, LLGR-stale), ranked best-first under the reference key; unwind 10
+//@ bound: current_paths = [best, second], both without attributes (defaults), sources symbolic (role, router id, GR-stale, LLGR-stale), ranked best-first under the reference key; unwind 4
 //@ desc: ECMP set = leading run of paths tying with the best on EVERY decision step before router-id: the second path is in the set iff it ties on LLGR-stale, LOCAL_PREF, hops, ORIGIN, eBGP, GR-stale and CLUSTER_LIST length
 #[kani::proof]
-#[kani::unwind(10)]
+#[kani::unwind(4)]
 fn c02_ecmp_sources_only() {
     let tie = ecmp_case(1, 1);
     kani::cover!(tie);
     kani::cover!(!tie);
 }
 
-//@ id=C02 tier=thorough cap=2400 mem=30
+//@ id=C02 tier=off cap=3600 mem=40
 //@ fn: NlriChange::ecmp_paths and helpers
 //@ bound: as c02_ecmp_sources_only with both paths carrying ORIGIN + AS_PATH (2+1 ASNs, symbolic segment types) + COMMUNITY; unwind 10
 //@ desc: as c02_ecmp_sources_only, attribute-derived steps included
